@@ -8,7 +8,7 @@ import json, os, shutil, subprocess, sys
 import xml.etree.ElementTree as ET
 kind, out, i, sid = sys.argv[1:5]
 wt = '/tmp/wt/confirm_' + sid
-env = dict(os.environ, OMP_NUM_THREADS='2', OPENBLAS_NUM_THREADS='2')
+env = dict(os.environ, OMP_NUM_THREADS='2', OPENBLAS_NUM_THREADS='2', PYTHONPATH=wt)   # the worktree's metric_learn, not /repo's
 def sh(cmd, **k):
   return subprocess.run(cmd, capture_output=True, text=True, env=env, **k)
 sh(['git', '-C', '/repo', 'worktree', 'remove', '--force', wt])
@@ -19,6 +19,9 @@ try:
   diff = os.path.join(out, 'm%s.diff' % i)
   c1 = sh(['/venv/bin/python', demo], cwd=wt, timeout=1800).returncode
   ap = sh(['git', 'apply', diff], cwd=wt)
+  if ap.returncode:   # written against an earlier HEAD (before a fix: commit): three-way merge
+    ap = sh(['git', 'apply', '--3way', diff], cwd=wt)
+    sh(['git', 'reset', '-q'], cwd=wt)
   if ap.returncode:
     print(sid, 'patch does not apply', ap.stderr[:300]); sys.exit(3)
   r2 = sh(['/venv/bin/python', demo], cwd=wt, timeout=1800)
